@@ -411,11 +411,12 @@ func checkFunctionCalls(expr Expression, allowAggr bool) error {
 			return false
 		}
 		var (
-			numArgs int
-			varArgs bool
+			numArgs  int
+			varArgs  bool
+			argTypes []Type
 		)
 		if f, have := GetScalarFunctionByName(fname); have {
-			numArgs, varArgs = f.NumArgs, f.VarArgs
+			numArgs, varArgs, argTypes = f.NumArgs, f.VarArgs, staticArgTypes(fname)
 		} else if f, have := GetAggrFunctionByName(fname); have && allowAggr {
 			numArgs, varArgs = f.NumArgs, f.VarArgs
 		} else {
@@ -430,9 +431,31 @@ func checkFunctionCalls(expr Expression, allowAggr bool) error {
 			ret = NewSyntaxError(fc.GetPos(), "Function %s require at least %d arguments but got %d", fname, numArgs, len(fc.Args))
 			return false
 		}
+		for i, tp := range argTypes {
+			if i < len(fc.Args) && tp != TUNKNOWN && fc.Args[i].ReturnType() != tp {
+				ret = NewSyntaxError(fc.Args[i].GetPos(), "Function %s parameter %d has wrong type", fname, i+1)
+				return false
+			}
+		}
 		return true
 	})
 	return ret
+}
+
+// staticArgTypes returns the static types (TUNKNOWN: any) a built-in scalar
+// function demands of its arguments. The bodies of substr, split and join
+// test them every time they are evaluated: the same test is made once when
+// the plan is built
+func staticArgTypes(fname string) []Type {
+	switch fname {
+	case "substr":
+		return []Type{TUNKNOWN, TNUMBER, TNUMBER}
+	case "split":
+		return []Type{TUNKNOWN, TSTR}
+	case "join":
+		return []Type{TSTR}
+	}
+	return nil
 }
 
 func checkStatementFunctionCalls(stmt Statement) error {
